@@ -1,1 +1,4 @@
+pub mod interval;
+pub mod npm;
+pub mod probes;
 pub mod version;
